@@ -20,7 +20,6 @@ import (
 	"runtime"
 	"sync"
 
-	"github.com/tikv/pd/pkg/mock/mockcluster"
 	"github.com/tikv/pd/server/core"
 	"github.com/tikv/pd/server/schedule/placement"
 	"verif/harness/lib/ev"
@@ -29,7 +28,7 @@ import (
 
 // faultCluster makes the failAt-th AllocID call after arm() fail.
 type faultCluster struct {
-	*mockcluster.Cluster
+	*cluster
 	calls, failAt int
 	failed        bool
 }
@@ -43,7 +42,7 @@ func (f *faultCluster) AllocID() (uint64, error) {
 		f.failed = true
 		return 0, errors.New("injected fault: id allocation failed")
 	}
-	return f.Cluster.AllocID()
+	return f.cluster.AllocID()
 }
 
 // liveWorld is a cluster whose description is kept in step with every change made to it.
@@ -234,8 +233,18 @@ func liveCase(rn *runner, lw *liveWorld, rng *rand.Rand, slots []*regionSlot, ne
 			rn.st.count("live_world_changes_inside_a_build", 1)
 		}
 	}
+	n0 := lw.eventCount()
 	rn.execBetween(lw.cl, k, sl.origin, sl.info, between)
 	rn.st.count("live_cases", 1)
+	if family == "concurrent" && lw.eventCount() != n0 {
+		rn.st.count("concurrent_cases_overlapped_by_a_world_change", 1)
+	}
+}
+
+func (lw *liveWorld) eventCount() int {
+	lw.mu.RLock()
+	defer lw.mu.RUnlock()
+	return lw.nEvents
 }
 
 // livePhase: sequential histories on long-lived clusters.
